@@ -73,6 +73,8 @@ def _param(env, p, angles, rng):
         nm = tok.lstrip("-")
         if nm not in angles:
             angles[nm] = env.angle(nm, rng[0], rng[1])
+            if not env.symbolic:     # replayed candidates must lie in the declared range
+                env.assume(rng[0] * math.pi <= angles[nm] <= rng[1] * math.pi, "angle range")
         v = -angles[nm] if neg else angles[nm]
         tot = v if tot is None else tot + v
     return tot
@@ -131,7 +133,8 @@ def h_pass(env, spec, n_qubits, op, form, remove_qubits=False, canary=False):
     elif op == "remove_redundant_gates":
         kw = dict(remove_qubits=remove_qubits)
     out = _run_pass(c, op, form, **kw)
-    CU.link_rounds(env)
+    consts = [p for (_n, _t, _c, p) in spec if isinstance(p, (int, float))]
+    consts = consts + [-p for p in consts] + [-math.pi / 2, -math.pi / 4]      # S, T invert to PHASE(-pi/2), PHASE(-pi/4)
     g1 = CU.gate_tuples(out)
     qs = CU.used_qubits(g0)
     if canary:       # wrong spec: the pass is claimed to also absorb a Z on the first used qubit
@@ -139,8 +142,10 @@ def h_pass(env, spec, n_qubits, op, form, remove_qubits=False, canary=False):
     env.check_true(CU.used_qubits(g1) <= qs, f"{op}: output acts only on qubits of the input")
     U0, n = _U(g0, qs)
     U1, _ = _U(g1, qs)
-    env.check_vec_eq_up_to_phase(U1, U0, f"{op} ({form}): output unitary == input unitary up to a global phase")
-    if not remove_qubits and op != "merge_rotations":
+    CU.link_rounds(env, consts, polys=U0 + U1)
+    tag = " [controlled rotations present]" if any(g[0] in ("CRX", "CRY", "CRZ") for g in g0) else ""
+    env.check_vec_eq_up_to_phase(U1, U0, f"{op} ({form}): output unitary == input unitary up to a global phase{tag}")
+    if not remove_qubits and op == "remove_redundant_gates":
         env.check_same(out.width, max(max(qs) + 1, n_qubits or 0), f"{op}: width is kept")
 
 
@@ -195,12 +200,19 @@ def h_gate_eq(env, n1, n2, tg, ct, p1, p2, rng=(-4, 4), canary=False):
     U2, _ = _U([t2], qs)
     if env.symbolic:
         from symx import num
-        tab = list(num.ctx().__dict__.get("_rounds", {}).values())
-        if len(tab) == 2:
-            CU.small_angle_lemmas(env, Sym(tab[0][0].sub(tab[1][0])), why="(x = difference of the two reduced parameters)")
+        red = [Sym(x) for (x, _n, _sc) in num.ctx().__dict__.get("_rounds", {}).values()]
+        for p in (a, b):       # concrete parameters are reduced by the real code with floats: exact value of the reduced angle
+            if isinstance(p, (int, float)) and not isinstance(p, bool):
+                xc = Sym.of(p) - 2 * math.floor(p / (2 * math.pi)) * num.sym_pi()
+                red.append(xc)
+        if len(red) == 2:
+            ph = n1 in ("PHASE", "CPHASE")      # diag(1, e^{i x}): the angle occurs undivided; all others through x/2
+            CU.small_angle_lemmas(env, red[0] - red[1], why="(x = difference of the two reduced parameters)", full=ph, half=not ph)
     D = CU.matmul_dag(U1, U2, 2 ** n)
-    tol = 1e-7 if not canary else 1e-9     # canary: claims agreement far below the rounding resolution of __eq__
-    CU.near_phase_identity(env, D, 2 ** n, tol, f"Gate.__eq__ {n1}/{n2}: gates that compare equal agree up to a global phase (within 1e-7)")
+    # canary: claims that equal gates agree WITHOUT any global phase (refuted by RX(a) == RX(a + 2*pi) = -RX(a))
+    from fractions import Fraction
+    CU.near_phase_identity(env, D, 2 ** n, Fraction(1, 10 ** 7), f"Gate.__eq__ {n1}/{n2}: gates that compare equal agree up to a global phase (within 1e-7)",
+                           phases=((1,) if canary else (1, -1)))
 
 
 # ------------------------------------------------------------------ (d) structural operations
@@ -359,7 +371,7 @@ def random_spec(rnd, qubits, n_gates, n_sym, kinds=None, p_concrete=0.25):
             elif syms and rnd.random() < 0.5 and used > 0:
                 pa = rnd.choice(["-", ""]) + rnd.choice(syms[:used])
             else:
-                pa = rnd.choice([0.3, -1.1, math.pi / 2, 2 * math.pi + 0.3])
+                pa = rnd.choice([0.5, -1.25, math.pi / 2, 5 * math.pi / 2, -2 * math.pi])
         spec.append((nm, tg, ct, pa))
     return spec
 
@@ -392,7 +404,7 @@ def shapes(tier, seed):
     ]
     for i, (sp, n) in enumerate(core_inv):
         add(f"inverse/core{i}/{_nm(sp)}/n={n}", h_inverse, dict(spec=sp, n_qubits=n))
-    for i in range(6 if q else 40):
+    for i in range(6 if q else 80):
         pat = rnd.choice(list(PATTERNS))
         sp = random_spec(rnd, PATTERNS[pat], rnd.randint(2, 4), 3)
         n = rnd.choice([None, max(PATTERNS[pat]) + 2])
@@ -417,8 +429,10 @@ def shapes(tier, seed):
         [("XX", (0, 1), None, "a"), ("XX", (0, 1), None, "-a")],
         [("SWAP", (0, 2), None, None), ("SWAP", (0, 2), None, None), ("RZ", (2,), None, "a")],
         [("CSWAP", (0, 1), (2,), None), ("CSWAP", (0, 1), (2,), None)],
-        [("RX", (0,), None, "a"), ("RX", (0,), None, 2 * math.pi + 0.3), ("RX", (0,), None, "b")],
+        [("RX", (0,), None, "a"), ("RX", (0,), None, 5 * math.pi / 2), ("RX", (0,), None, "b")],
         [("CRY", (0,), (2,), "a"), ("X", (3,), None, None), ("CRY", (0,), (2,), "-a")],
+        [("CNOT", (1,), (0,), None), ("H", (0,), None, None), ("CNOT", (1,), (0,), None), ("RX", (1,), None, "a")],   # blocked on the control only
+        [("CPHASE", (1,), (0,), "a"), ("RZ", (0,), None, "b"), ("CPHASE", (1,), (0,), "-a")],                         # commuting gate in between
     ]
     ops = [("merge_rotations", "function"), ("merge_rotations", "method"), ("remove_redundant_gates", "function"),
            ("remove_redundant_gates", "method"), ("simplify", "function"), ("simplify", "method")]
@@ -433,15 +447,15 @@ def shapes(tier, seed):
             rq = (op != "merge_rotations") and (k % 5 == 0)
             add(f"pass/{op}/{form}/{_nm(sp)}/n={n}/rq={int(rq)}", h_pass,
                 dict(spec=sp, n_qubits=n, op=op, form=form, remove_qubits=rq), policy=pol, max_paths=400)
-    for i in range(4 if q else 36):
+    for i in range(4 if q else 150):
         pat = rnd.choice(list(PATTERNS))
         qsel = PATTERNS[pat][:2] if rnd.random() < 0.5 else PATTERNS[pat]
         sp = random_spec(rnd, qsel, rnd.randint(2, 4), 2, kinds=ROT1 + CROT + ("H", "CNOT", "X", "CZ"), p_concrete=0.1)
         op, form = rnd.choice(ops)
         add(f"pass/{op}/{form}/{pat}/{_nm(sp)}", h_pass, dict(spec=sp, n_qubits=None, op=op, form=form), policy=pol, max_paths=400)
-    add("canary/pass/merge", h_pass, dict(spec=core_pass[0], n_qubits=None, op="merge_rotations", form="function", canary=True),
+    add("canary/pass/merge", h_pass, dict(spec=core_pass[2], n_qubits=None, op="merge_rotations", form="function", canary=True),
         policy=pol, canary=True)
-    add("canary/pass/redundant", h_pass, dict(spec=core_pass[0], n_qubits=None, op="remove_redundant_gates", form="function", canary=True),
+    add("canary/pass/redundant", h_pass, dict(spec=core_pass[7], n_qubits=None, op="remove_redundant_gates", form="function", canary=True),
         policy=pol, canary=True)
 
     # ---- (c) remove_small_rotations
@@ -470,7 +484,7 @@ def shapes(tier, seed):
         # second parameter b = a + d (a surjective re-parameterisation of the pair (a, b): G(a) G(b)^dagger depends on d only)
         add(f"gate_eq/{nm}", h_gate_eq, dict(n1=nm, n2=nm, tg=tg, ct=ct, p1="a", p2="a+d", rng=(-3, 3) if q else (-4, 4)), policy=pole)
     add("gate_eq/CRX/multi-control", h_gate_eq, dict(n1="CRX", n2="CRX", tg=1, ct=[0, 3], p1="a", p2="a+d", rng=(-3, 3)), policy=pole)
-    add("gate_eq/RX/const", h_gate_eq, dict(n1="RX", n2="RX", tg=0, ct=None, p1="a", p2=0.3 + 2 * math.pi), policy=pole)
+    add("gate_eq/RX/const", h_gate_eq, dict(n1="RX", n2="RX", tg=0, ct=None, p1="a", p2=3 * math.pi), policy=pole)
     add("gate_eq/CNOT-CX", h_gate_eq, dict(n1="CNOT", n2="CX", tg=1, ct=0, p1=None, p2=None), policy=pole)
     add("gate_eq/RX-RY", h_gate_eq, dict(n1="RX", n2="RY", tg=1, ct=None, p1="a", p2="a"), policy=pole)
     add("canary/gate_eq/RX", h_gate_eq, dict(n1="RX", n2="RX", tg=0, ct=None, p1="a", p2="a+d", rng=(-3, 3), canary=True), policy=pole, canary=True)
@@ -505,7 +519,7 @@ def shapes(tier, seed):
     add("struct/stack/function", h_struct, dict(op="stack", spec=s1, n_qubits=None, spec2=s2, n_qubits2=None, arg="function"))
     add("struct/stack/method/n", h_struct, dict(op="stack", spec=s4, n_qubits=10, spec2=s3, n_qubits2=5, arg="method"))
     if not q:
-        for i in range(30):
+        for i in range(80):
             pat = rnd.choice(list(PATTERNS))
             sp = random_spec(rnd, PATTERNS[pat], rnd.randint(2, 4), 3)
             pat2 = rnd.choice(list(PATTERNS))
@@ -534,7 +548,7 @@ def shapes(tier, seed):
 
     # ---- (g) inputs unchanged by the out-of-place functions
     im = [("RX", (0,), None, "a"), ("RX", (0,), None, "b"), ("H", (1,), None, None), ("H", (1,), None, None), ]
-    im2 = [("CRZ", (8,), (1,), "a"), ("CRZ", (8,), (1,), 0.01), ("X", (3,), None, None)]
+    im2 = [("CRZ", (8,), (1,), "a"), ("CRZ", (8,), (1,), 0.015625), ("X", (3,), None, None)]
     for op in ("remove_small_rotations", "merge_rotations", "remove_redundant_gates", "simplify"):
         add(f"immut/{op}/dense", h_immut, dict(op=op, spec=im, n_qubits=3), policy=dict(mod_range=(-3, 3), threshold="fork"), max_paths=400)
         add(f"immut/{op}/far", h_immut, dict(op=op, spec=im2, n_qubits=None), policy=dict(mod_range=(-3, 3), threshold="fork"), max_paths=400)
